@@ -16,7 +16,7 @@ import (
 )
 
 func c12From(v *big.Int) (e fp384) { copy(e[:], vlib.LE(v, sizeFp)); return }
-func c12To(e *fp384) *big.Int    { return vlib.FromLE(e[:]) }
+func c12To(e *fp384) *big.Int      { return vlib.FromLE(e[:]) }
 
 func TestVerifC12Fp384(t *testing.T) {
 	defer vlib.Done()
@@ -76,95 +76,98 @@ func TestVerifC12Fp384(t *testing.T) {
 		}
 		sel := rapid.IntRange(0, 1).Draw(t, "sel")
 		x0, y0, junk := c12From(new(big.Int).Abs(xv)), c12From(yv), c12From(jv)
+		drawn := alias
 		for _, be := range backends {
-			hasBMI2 = be.flag
-			c := &kit.Case{T: t, Type: "fp384", Op: op, Backend: be.name, Alias: alias}
-			canonical := func(what string, got *fp384, want *big.Int) bool {
-				// results must be fully reduced: the package compares elements byte-wise
-				return c.Expect(what, c12To(got), kit.Mod(want, prime))
-			}
-			switch op {
-			case "Add", "Sub", "Mul":
-				c.Vals, c.Classes = []*big.Int{xv, yv}, []string{xc, yc}
-				fn := map[string]func(c, a, b *fp384){"Add": fp384Add, "Sub": fp384Sub, "Mul": fp384Mul}[op]
-				z, xo, yo := kit.Bin(alias, fn, x0, y0, junk)
-				w := new(big.Int)
+			for _, alias := range kit.Patterns(drawn) {
+				hasBMI2 = be.flag
+				c := &kit.Case{T: t, Type: "fp384", Op: op, Backend: be.name, Alias: alias}
+				canonical := func(what string, got *fp384, want *big.Int) bool {
+					// results must be fully reduced: the package compares elements byte-wise
+					return c.Expect(what, c12To(got), kit.Mod(want, prime))
+				}
 				switch op {
-				case "Add":
-					w.Add(xv, yv)
-				case "Sub":
-					w.Sub(xv, yv)
-				case "Mul":
-					w.Mul(xv, yv).Mul(w, rinv)
-				}
-				if !canonical("result", &z, w) {
-					return
-				}
-				if (alias == kit.AliasNone || alias == kit.AliasZY || alias == kit.AliasXY) && xo != x0 ||
-					(alias == kit.AliasNone || alias == kit.AliasZX) && yo != y0 {
-					c.Fail("operand-clobbered", fmt.Sprintf("x=%x y=%x", xo, yo))
-					return
-				}
-			case "Sqr", "Neg", "Inv", "montEncode", "montDecode":
-				c.Vals, c.Classes = []*big.Int{xv}, []string{xc}
-				fn := map[string]func(c, a *fp384){"Sqr": fp384Sqr, "Neg": fp384Neg, "Inv": fp384Inv, "montEncode": montEncode, "montDecode": montDecode}[op]
-				z, xo := kit.Un(alias, fn, x0, junk)
-				w := new(big.Int)
-				switch op {
-				case "Sqr":
-					w.Mul(xv, xv).Mul(w, rinv)
-				case "Neg":
-					w.Neg(xv)
-				case "montEncode":
-					w.Mul(xv, R)
-				case "montDecode":
-					w.Mul(xv, rinv)
-				case "Inv":
-					if xv.Sign() == 0 {
-						vlib.Class("fp384", "inv-of-zero(not asserted)")
-						w = nil
-					} else {
-						// x = aR ↦ a⁻¹R = R²·x⁻¹
-						w.ModInverse(xv, prime).Mul(w, R).Mul(w, R)
+				case "Add", "Sub", "Mul":
+					c.Vals, c.Classes = []*big.Int{xv, yv}, []string{xc, yc}
+					fn := map[string]func(c, a, b *fp384){"Add": fp384Add, "Sub": fp384Sub, "Mul": fp384Mul}[op]
+					z, xo, yo := kit.Bin(alias, fn, x0, y0, junk)
+					w := new(big.Int)
+					switch op {
+					case "Add":
+						w.Add(xv, yv)
+					case "Sub":
+						w.Sub(xv, yv)
+					case "Mul":
+						w.Mul(xv, yv).Mul(w, rinv)
+					}
+					if !canonical("result", &z, w) {
+						return
+					}
+					if (alias == kit.AliasNone || alias == kit.AliasZY || alias == kit.AliasXY) && xo != x0 ||
+						(alias == kit.AliasNone || alias == kit.AliasZX) && yo != y0 {
+						c.Fail("operand-clobbered", fmt.Sprintf("x=%x y=%x", xo, yo))
+						return
+					}
+				case "Sqr", "Neg", "Inv", "montEncode", "montDecode":
+					c.Vals, c.Classes = []*big.Int{xv}, []string{xc}
+					fn := map[string]func(c, a *fp384){"Sqr": fp384Sqr, "Neg": fp384Neg, "Inv": fp384Inv, "montEncode": montEncode, "montDecode": montDecode}[op]
+					z, xo := kit.Un(alias, fn, x0, junk)
+					w := new(big.Int)
+					switch op {
+					case "Sqr":
+						w.Mul(xv, xv).Mul(w, rinv)
+					case "Neg":
+						w.Neg(xv)
+					case "montEncode":
+						w.Mul(xv, R)
+					case "montDecode":
+						w.Mul(xv, rinv)
+					case "Inv":
+						if xv.Sign() == 0 {
+							vlib.Class("fp384", "inv-of-zero(not asserted)")
+							w = nil
+						} else {
+							// x = aR ↦ a⁻¹R = R²·x⁻¹
+							w.ModInverse(xv, prime).Mul(w, R).Mul(w, R)
+						}
+					}
+					if w != nil && !canonical("result", &z, w) {
+						return
+					}
+					if alias == kit.AliasNone && xo != x0 {
+						c.Fail("operand-clobbered", fmt.Sprintf("x=%x", xo))
+						return
+					}
+				case "Cmov":
+					c.Vals, c.Classes = []*big.Int{xv, yv, big.NewInt(int64(sel))}, []string{xc, yc, "sel"}
+					a, b := x0, y0
+					fp384Cmov(&a, &b, sel)
+					wa := x0
+					if sel == 1 {
+						wa = y0
+					}
+					if a != wa || b != y0 {
+						c.Fail("wrong-selection", fmt.Sprintf("after: x=%x y=%x", a, b))
+						return
+					}
+				case "SetBigInt":
+					c.Vals, c.Classes = []*big.Int{xv}, []string{xc}
+					a := junk
+					in := new(big.Int).Set(xv)
+					a.SetBigInt(in)
+					if in.Cmp(xv) != 0 {
+						c.Fail("argument-modified", "SetBigInt changed its argument")
+						return
+					}
+					// value is kept modulo p and fits the element
+					if !c.Expect("residue", kit.Mod(c12To(&a), prime), kit.Mod(xv, prime)) {
+						return
+					}
+					if !c.Expect("BigInt", a.BigInt(), c12To(&a)) {
+						return
 					}
 				}
-				if w != nil && !canonical("result", &z, w) {
-					return
-				}
-				if alias == kit.AliasNone && xo != x0 {
-					c.Fail("operand-clobbered", fmt.Sprintf("x=%x", xo))
-					return
-				}
-			case "Cmov":
-				c.Vals, c.Classes = []*big.Int{xv, yv, big.NewInt(int64(sel))}, []string{xc, yc, "sel"}
-				a, b := x0, y0
-				fp384Cmov(&a, &b, sel)
-				wa := x0
-				if sel == 1 {
-					wa = y0
-				}
-				if a != wa || b != y0 {
-					c.Fail("wrong-selection", fmt.Sprintf("after: x=%x y=%x", a, b))
-					return
-				}
-			case "SetBigInt":
-				c.Vals, c.Classes = []*big.Int{xv}, []string{xc}
-				a := junk
-				in := new(big.Int).Set(xv)
-				a.SetBigInt(in)
-				if in.Cmp(xv) != 0 {
-					c.Fail("argument-modified", "SetBigInt changed its argument")
-					return
-				}
-				// value is kept modulo p and fits the element
-				if !c.Expect("residue", kit.Mod(c12To(&a), prime), kit.Mod(xv, prime)) {
-					return
-				}
-				if !c.Expect("BigInt", a.BigInt(), c12To(&a)) {
-					return
-				}
+				c.Done()
 			}
-			c.Done()
 			if op == "Cmov" || op == "SetBigInt" || op == "Add" || op == "Sub" || op == "Neg" {
 				break // these do not depend on hasBMI2
 			}
